@@ -27,32 +27,78 @@ def offered(val):
     return enc, mac
 
 
+class Tok:
+    """a named opaque object with modelled attributes (algs.ssh2kex.server.mac ...), reachable through any alias"""
+    def __init__(self, name, attrs=None):
+        self.name = name
+        self.attrs = attrs or {}
+
+    def __repr__(self):
+        return self.name
+
+    def __deepcopy__(self, memo):
+        return self
+
+
+def _attr_hook(base, attr, interp):
+    if isinstance(base, Tok):
+        if attr in base.attrs:
+            return (True, base.attrs[attr])
+        raise Unknown('no model value for %r.%s' % (base, attr))
+    return None
+
+
+def warned(table):
+    """(category, name) pairs whose table entry received a warning (row 2) during the interpretation"""
+    return {(cat, n) for cat, names in table.items() for n, rows in names.items() if any(r for r in rows[1:]) and not (cat == 'kex' and n == GEXN and not any(rows[1:3]))}
+
+
+def misplaced(table):
+    """entries whose Terrapin text landed in a row other than row 2 (warnings)"""
+    return [(cat, n, i) for cat, names in table.items() for n, rows in names.items() for i, r in enumerate(rows) if i != 2 and any('Terrapin' in str(t) for t in r)]
+
+
 def interpret(repo, ppf, val, extra_env=None, kex_extra=()):
-    """val: {kexp, client, c, s, chacha, cbc, etm}.  Returns (final environments, interpreter, per-scan table)."""
+    """val: {kexp, client, c, s, chacha, cbc, etm}.  Returns (final environments, interpreter, None); every final environment carries the per-scan
+    table of its own path under '<table>' (the warning adder is interpreted like every other nested helper: what counts is the table afterwards)."""
     enc, mac = offered(val)
     role, other = ('client', 'server') if val['client'] else ('server', 'client')
     table = {cat: {n: [['x']] for n in names} for cat, names in DB_NAMES.items()}
     kexlist = ['curve25519-sha256'] + list(kex_extra) + ([C_LIT] if val['c'] else []) + ([S_LIT] if val['s'] else [])
-    env = {
-        'algs': Opaque(), 'algs.ssh2kex': Opaque() if val['kexp'] else None, 'algs.ssh2kex.kex_algorithms': kexlist,
-        'algs.ssh2kex is not None': val['kexp'], 'algs.ssh2kex is None': not val['kexp'], 'client_audit': val['client'],
-        'algs.ssh2kex.%s.encryption' % role: list(enc), 'algs.ssh2kex.%s.mac' % role: list(mac),
-        'algs.ssh2kex.%s.encryption' % other: list(OTHER_ROLE['enc']), 'algs.ssh2kex.%s.mac' % other: list(OTHER_ROLE['mac']),
-        'SSH2_KexDB.get_db()': table, 'dh_rate_test_notes': '',
-    }
-    env.update(extra_env or {})
+    extra = dict(extra_env or {})
+    sizes = extra.pop('algs.ssh2kex.dh_modulus_sizes()', {})
+    parties = {role: Tok('<%s>' % role, {'encryption': list(enc), 'mac': list(mac), 'compression': ['none'], 'languages': ['']}),
+               other: Tok('<%s>' % other, {'encryption': list(OTHER_ROLE['enc']), 'mac': list(OTHER_ROLE['mac']), 'compression': ['none'], 'languages': ['']})}
+    kex = Tok('<kex>', {'kex_algorithms': kexlist, 'key_algorithms': ['ssh-ed25519'], 'client': parties['client'], 'server': parties['server']}) if val['kexp'] else None
+    banner = extra.pop('banner', None)
+    if banner is not None:
+        banner = Tok('<banner>', {'software': extra.get('banner.software')})
+    for k in ('banner is not None', 'banner is None', 'banner.software'):
+        extra.pop(k, None)
+    env = {'algs': Tok('<algs>', {'ssh2kex': kex, 'ssh1kex': None}), 'client_audit': val['client'], 'banner': banner, 'dh_rate_test_notes': '', '<table>': table}
+    env.update(extra)
+
+    def hook(call, e, interp):
+        t = call_name(call) or ''
+        if t in ('SSH2_KexDB.get_db',) and not call.args:
+            return (True, e['<table>'])
+        if t.endswith('.dh_modulus_sizes') and not call.args:
+            return (True, dict(sizes))
+        if t.endswith('.host_keys') and not call.args:
+            return (True, {})
+        return None
 
     def resolver(call):
         nm = call_name(call)
-        if nm and nm != '_add_terrapin_warning' and repo.has_func('ssh_audit', 'post_process_findings.' + nm):      # every nested helper except the effect
+        if nm and repo.has_func('ssh_audit', 'post_process_findings.' + nm):      # every nested helper, the warning adder included
             return repo.func('ssh_audit', 'post_process_findings.' + nm)
         return None
-    it = Interp(effect_names=('_add_terrapin_warning',), resolver=resolver, budget=200000)
+    it = Interp(call_hook=hook, attr_hook=_attr_hook, resolver=resolver, budget=200000)
     try:
         finals = it.run(ppf.body, env)
     except Unknown as ex:
         raise AnalysisError('post_process_findings cannot be interpreted: %s' % ex)
-    return finals, it, table
+    return finals, it, None
 
 
 def expected_suppressed(val):
